@@ -267,6 +267,13 @@ class Gen:
         k = n if n is not None else r.randint(1, self.p.max_block)
         return [self.stmt(depth, loopvars) for _ in range(k)]
 
+    def loop_var(self, depth):
+        """counting variables: usually one name per nesting depth, sometimes the same name (and
+        then often the same limit) at several depths - nested loops with identical headers"""
+        if self.rng.random() < 0.25:
+            return "i"
+        return "i%d" % depth
+
     def pick_kind(self, depth):
         w = dict(self.p.w)
         if depth >= self.p.max_depth or self.budget <= 0:
@@ -329,14 +336,21 @@ class Gen:
             return ("parallel", calls)
         if kind == "parloop":
             self.budget -= 2
-            lv = "i%d" % depth
+            lv = self.loop_var(depth)
             c = self.mk_call(loopvars + [lv]) or c
             return ("count", True, lv, self.limit(vars_), [("call", c[0], c[1], c[2])])
         if kind == "while":
             return ("while", self.guard(vars_), self.block(depth + 1, loopvars))
         if kind == "count":
-            lv = "i%d" % depth
-            return ("count", False, lv, self.limit(vars_), self.block(depth + 1, loopvars + [lv]))
+            lv = self.loop_var(depth)
+            lim = self.limit(vars_)
+            stack = getattr(self, "loop_stack", [])
+            if stack and r.random() < 0.2:
+                lv, lim = stack[-1]            # the same header as the enclosing loop
+            self.loop_stack = stack + [(lv, lim)]
+            body = self.block(depth + 1, loopvars + [lv])
+            self.loop_stack = stack
+            return ("count", False, lv, lim, body)
         if kind == "cond":
             passed = self.block(depth + 1, loopvars)
             failed = self.block(depth + 1, loopvars) if r.random() < 0.5 else []
